@@ -56,9 +56,18 @@ impl Metainfo {
   }
 
   pub(crate) fn deserialize(source: &InputTarget, data: &[u8]) -> Result<Metainfo, Error> {
-    let metainfo = bendy::serde::de::from_bytes(data).context(error::MetainfoDeserialize {
-      input: source.clone(),
-    })?;
+    let metainfo: Metainfo =
+      bendy::serde::de::from_bytes(data).context(error::MetainfoDeserialize {
+        input: source.clone(),
+      })?;
+
+    if metainfo.info.mode.checked_content_size().is_none() {
+      return Err(Error::MetainfoValidate {
+        input: source.clone(),
+        source: MetainfoError::ContentSize,
+      });
+    }
+
     Ok(metainfo)
   }
 
